@@ -156,7 +156,7 @@ PROFILES = {
     "c01": {"dim2d_p": 0.2, "wide_scales": [250.0], "merge_p": 0.45, "dup_labels_p": 0.5, "radii_list_p": 0.55, "force": ["ghost", "dup_detection"], "contested_p": 0.7, "tasks": {"detection": 5, "tracking": 2, "fp_validation": 3},
             "fp_gt_p": 0.2},
     "c04": {"dim2d_p": 0.2, "obj_tilt_p": 0.12, "force": ["ghost", "label_flip", "conf_near_tie"], "multi_thr_p": 0.8, "tasks": {"detection": 3, "tracking": 2}},
-    "c08": {"dim2d_p": 0.2, "force": ["dup", "pf_change", "pose_noise"], "multi_thr_p": 1.0, "tasks": {"detection": 3, "tracking": 2}},
+    "c08": {"z_noise": True, "dim2d_p": 0.2, "force": ["dup", "pf_change", "pose_noise"], "multi_thr_p": 1.0, "tasks": {"detection": 3, "tracking": 2}},
     "c10": {"dim2d_p": 0.2, "force": ["ghost", "label_unknown", "crit_change"], "narrow_crit_p": 0.7, "fp_gt_p": 0.15},
     # camera worlds only (targeted runs: check.py --profile cam)
     "cam": {"dim2d_p": 1.0, "tasks": {"detection": 1, "tracking": 1}, "fp_gt_p": 0.1, "contested_p": 0.6, "multi_thr_p": 0.7,
@@ -919,6 +919,13 @@ def make_plan(seed, run, profile_name, clean=None, force=None):
                     x += rng.gauss(0, s)
                     y += rng.gauss(0, s)
                     yaw += rng.gauss(0, 0.3)
+                    if prof.get("z_noise"):
+                        # height error too (ground estimation): distance in space then differs from distance on the ground.
+                        # Drawn from a fork of the stream: every other decision of the plan stays what it was.
+                        fz = random.Random()
+                        fz.setstate(rng.getstate())
+                        z += fz.gauss(0, 0.6 * s)
+                        note("height_noise")
                     f.append("pose_noise")
                     note("pose_noise")
                 if fire("yaw_flip"):
